@@ -195,6 +195,10 @@ def build(ctx, tier="quick", constraints=True, set_null=True, normalize_names=Fa
                     s.eps(xd, x)
                 x = s.edge(x, P[","], Tag(kind, False))
                 x = s.edge(x, NM["b"], Tag(kind, False, role_prefix + "2"))
+                # ... and the same two columns the other way round: a key is reported in the order it is DECLARED
+                y = s.edge(x0, NM["b"], Tag(kind, False, role_prefix + "1"))
+                y = s.edge(y, P[","], Tag(kind, False))
+                s.edge(y, NM["a"], Tag(kind, False, role_prefix + "2"), x)
             return s.edge(x, P[")"], Tag(kind, False))
         for k in (1, 2):
             e = s.words(sep, "decl:PK", [("KW", "PRIMARY"), ("KW", "KEY")])
